@@ -372,6 +372,66 @@ fn scenario_liveness(seed: u64, rep: &mut Report) {
     let _ = std::fs::remove_dir_all(&dir);
 }
 
+/// C06, directed: a leader whose messages reach only ONE other node for a while (its proposals are
+/// a partial broadcast: that node moves ahead, the rest stay a round behind and time out), then the
+/// leader crashes for good.  One crash, timely links between the live nodes afterwards: they must
+/// resynchronise through the QCs carried in each other's timeouts and keep committing.
+fn scenario_partial_broadcast(seed: u64, rep: &mut Report) {
+    let mut rng = SmallRng::seed_from_u64(seed);
+    let n = rng.gen_range(4, 7usize);
+    let stakes = vec![1u32; n];
+    let leader = rng.gen_range(0, n);
+    let others: Vec<usize> = (0..n).filter(|i| *i != leader).collect();
+    let reached = others[rng.gen_range(0, others.len())];
+    let replay = json!({"engine": "netsim", "scenario": "partial-broadcast", "seed": seed});
+    let rt = world::runtime();
+    let dir = rt.block_on(async {
+        let net = Net::boot(seed, n, &stakes, 10_000, 500_000).await;
+        net.run_for(rng.gen_range(0, 300)).await;
+        for a in &others {
+            if *a != reached {
+                net.set_link(leader, *a, false, 1);
+            }
+        }
+        // long enough for the leader to lead at least once more (every round it leads costs the
+        // nodes it does not reach a timeout)
+        net.run_for((n as u64 + 2) * TIMEOUT_MS + rng.gen_range(0, TIMEOUT_MS)).await;
+        net.isolate(leader, true);
+        for a in 0..n {
+            for b in 0..n {
+                if a != b && a != leader && b != leader {
+                    net.set_link(a, b, true, rng.gen_range(1, 20));
+                }
+            }
+        }
+        let live = others.clone();
+        let window = (4 * 2 + 6) * TIMEOUT_MS;
+        let mut last: Vec<u64> = live.iter().map(|i| net.committed_round(*i)).collect();
+        for w in 0..2 {
+            net.run_for(window).await;
+            for (k, i) in live.iter().enumerate() {
+                let now = net.committed_round(*i);
+                if now <= last[k] {
+                    rep.finding(
+                        "impl_vs_property",
+                        "C06:no-progress-after-partial-broadcast",
+                        format!("n={}: node {} reached only node {} for a while and then crashed; live node {} stayed at committed round {} during window {} of {} ms although all links between live nodes are up and fast", n, leader, reached, i, now, w, window),
+                        replay.clone(),
+                    );
+                }
+                last[k] = now;
+            }
+        }
+        check_logs(&net, &live, rep, &replay);
+        rep.hit(&format!("partial-broadcast.n{}", n));
+        rep.sample(json!({"scenario": "partial-broadcast", "n": n, "leader": leader, "reached": reached, "committed_rounds": live.iter().map(|i| net.committed_round(*i)).collect::<Vec<_>>()}));
+        net.dir.clone()
+    });
+    drop(rt);
+    network::simnet::reset();
+    let _ = std::fs::remove_dir_all(&dir);
+}
+
 /// C07: one node is cut off while the others keep committing (with or without a view change in the
 /// gap), then reconnected: it must end up delivering the same sequence.
 fn scenario_catchup(seed: u64, rep: &mut Report) {
@@ -505,19 +565,43 @@ fn unused(_: Store) {}
 pub fn run(o: &Opts) -> Report {
     world::install_panic_hook();
     let mut rep = Report::new("netsim", &o.prop, &o.tier, o.seed);
-    rep.rule = "seeded whole-system runs: 4-7 real nodes (real node.rs wiring) on simnet under virtual time with harness-controlled directed links; liveness: <= f crashes at random times, random pre-GST delays/cuts, then stable links, progress checked per window of (4(f+1)+6) timeouts; catch-up: one node isolated for a random interval then healed (optionally a slow first sync target); e2e: client transactions to several nodes with one node missing another's batch broadcasts; distinct by seed, all non-trivial".into();
+    rep.rule = "seeded whole-system runs: 4-7 real nodes (real node.rs wiring) on simnet under virtual time with harness-controlled directed links; liveness: <= f crashes at random times, random pre-GST delays/cuts, then stable links, progress checked per window of (4(f+1)+6) timeouts; partial broadcast: a node reaches only one other node for a while, then crashes; catch-up: one node isolated for a random interval then healed (optionally a slow first sync target); e2e: client transactions to several nodes with one node missing another's batch broadcasts; distinct by seed, all non-trivial".into();
     let which = match o.prop.as_str() {
         "C06" => vec!["liveness"],
         "C07" => vec!["catchup"],
         "C13" => vec!["e2e"],
         _ => vec!["liveness", "catchup", "e2e"],
     };
+    if let Some(path) = &o.replay {
+        // a recorded scenario is identified by its kind and seed (everything else derives from the seed)
+        let v: serde_json::Value = serde_json::from_str(&std::fs::read_to_string(path).expect("replay file")).expect("replay json");
+        let v = if v.get("scenario").is_some() { v } else { v.get("replay").cloned().unwrap_or(v) };
+        let seed = v["seed"].as_u64().unwrap_or(1);
+        match v["scenario"].as_str().unwrap_or("liveness") {
+            "liveness" => scenario_liveness(seed, &mut rep),
+            "partial-broadcast" => scenario_partial_broadcast(seed, &mut rep),
+            "catchup" => scenario_catchup(seed, &mut rep),
+            _ => scenario_e2e(seed, &mut rep),
+        }
+        rep.evaluations += 1;
+        for p in world::take_panics() {
+            rep.finding("impl_vs_property", "C15:panic", p, json!({"engine": "netsim", "seed": seed}));
+        }
+        return rep;
+    }
     let per = if o.thorough() { 40 } else { 6 };
     for w in which {
         for k in 0..per {
             let seed = o.seed.wrapping_mul(7919).wrapping_add(k);
             match w {
-                "liveness" => scenario_liveness(seed, &mut rep),
+                "liveness" => {
+                    // every third case is the directed partial-broadcast crash
+                    if k % 3 == 2 {
+                        scenario_partial_broadcast(seed, &mut rep)
+                    } else {
+                        scenario_liveness(seed, &mut rep)
+                    }
+                }
                 "catchup" => scenario_catchup(seed, &mut rep),
                 _ => scenario_e2e(seed, &mut rep),
             }
